@@ -322,3 +322,64 @@ Section UniqueEnds.
     rewrite B1, B2, (iter_periods_unique_ends k span d start end_ a b xs xe Exs Exe Cs Ce Hs He). reflexivity.
   Qed.
 End UniqueEnds.
+
+(* ---- the guards are decidable: boolean versions and their specifications ---- *)
+Lemma nodup_b_spec l : nodup_b l = true <-> NoDup l.
+Proof.
+  induction l as [|x r IH]; cbn [nodup_b].
+  - split; [intros _; constructor|reflexivity].
+  - rewrite andb_true_iff, negb_true_iff, IH. split.
+    + intros [Hx Hr]. constructor; [|exact Hr]. intros Hin.
+      assert (existsb (Z.eqb x) r = true) by (apply existsb_exists; exists x; split; [exact Hin|apply Z.eqb_refl]). congruence.
+    + intros H. inversion H as [|? ? Hnin Hr]; subst. split; [|exact Hr].
+      destruct (existsb (Z.eqb x) r) eqn:E; [|reflexivity]. exfalso. apply existsb_exists in E as (y & Hy & Exy).
+      apply Z.eqb_eq in Exy. subst y. exact (Hnin Hy).
+Qed.
+
+Lemma unique_at_spec span i : unique_at span i = true <-> exists x, nth_error span i = Some x /\ count_of x span = 1%nat.
+Proof.
+  unfold unique_at. destruct (nth_error span i) as [x|].
+  - rewrite Nat.eqb_eq. split; [intros H; exists x; auto|intros (y & Hy & Hc); inversion Hy; subst; exact Hc].
+  - split; [discriminate|intros (x & Hx & _); discriminate].
+Qed.
+
+Lemma nodup_unique_at span i : NoDup span -> (i < length span)%nat -> unique_at span i = true.
+Proof.
+  intros Hnd Hi. apply unique_at_spec. destruct (nth_error span i) as [x|] eqn:E; [|apply nth_error_None in E; lia].
+  exists x. split; [reflexivity|]. exact (count_of_nodup span x Hnd (nth_error_In _ _ E)).
+Qed.
+
+Section UniqueEndsB.
+  Variable num : Type.
+  Variables (sub : num -> num -> num) (absf : num -> num) (ltb : num -> num -> bool)
+            (isfin : num -> bool) (zero : num).
+  Variables (ev before after : hook num).
+  Notation solve_t_M := (solve_t_M num sub absf ltb isfin zero ev before after).
+  Notation run_periods := (run_periods num sub absf ltb isfin zero ev before after Z).
+  Notation solve_M k span := (solve_M num sub absf ltb isfin zero ev before after Z (locate_span k span)).
+  Notation solve_period_M k span := (solve_period_M num sub absf ltb isfin zero ev before after Z (locate_span k span)).
+
+  (* the decidable form of solve_unique_ends: a boolean test on the span and the two end positions *)
+  Theorem solve_unique_ends_b k span d o start end_ s a b :
+    min_iter o <= max_iter o ->
+    unique_at span a = true -> unique_at span b = true ->
+    resolves_start Z d span start a -> resolves_end Z d span end_ b ->
+    solve_M k span d o span start end_ s =
+    match run_periods d o (periods Z span a b) s [] with
+    | (s', Ret vs) => (s', Ret (mkRes (S b - a) vs))
+    | (s', Raise e) => (s', Raise e)
+    end.
+  Proof.
+    intros Hmm Ua Ub Hs He.
+    apply unique_at_spec in Ua as (xs & Exs & Cs). apply unique_at_spec in Ub as (xe & Exe & Ce).
+    exact (solve_unique_ends num sub absf ltb isfin zero ev before after k span d o start end_ s a b xs xe Hmm Exs Exe Cs Ce Hs He).
+  Qed.
+
+  (* solve_period(label) = solve_t(position) as soon as THAT label is carried by one period only (other labels may repeat) *)
+  Theorem solve_period_unique_label k span d o lab i s :
+    nth_error span i = Some lab -> count_of lab span = 1%nat ->
+    solve_period_M k span d o lab s = solve_t_M d o (Z.of_nat i) s.
+  Proof.
+    intros Hi Hc. unfold SolveAll.solve_period_M. rewrite (locate_span_unique k span lab i Hi Hc). reflexivity.
+  Qed.
+End UniqueEndsB.
